@@ -27,14 +27,15 @@ type c13Round struct {
 }
 
 type c13Scenario struct {
-	Client        ClientOpts `json:"client"`
-	Rounds        []c13Round `json:"rounds"`
-	TLS           bool       `json:"tls_required,omitempty"`
-	ResumeHook    bool       `json:"post_resume_hook_set,omitempty"`
-	PostConnectMs int        `json:"post_connect_callback_takes_ms,omitempty"` // the application's post-connect callback is slow: the new session can be lost while it still runs
-	LatencyNs     int64      `json:"latency_ns"`
-	Seg           int        `json:"segmentation"`
-	StopEarlyMs   int        `json:"stop_early_ms,omitempty"` // >0: Stop is called this long after the last round's fault, whatever the client is doing then
+	Client                 ClientOpts `json:"client"`
+	Rounds                 []c13Round `json:"rounds"`
+	TLS                    bool       `json:"tls_required,omitempty"`
+	ResumeHook             bool       `json:"post_resume_hook_set,omitempty"`
+	PostConnectMs          int        `json:"post_connect_callback_takes_ms,omitempty"` // the application's post-connect callback is slow: the new session can be lost while it still runs
+	LatencyNs              int64      `json:"latency_ns"`
+	Seg                    int        `json:"segmentation"`
+	StopDuringFirstConnect bool       `json:"stop_during_the_first_connect,omitempty"`
+	StopEarlyMs            int        `json:"stop_early_ms,omitempty"` // >0: Stop is called this long after the last round's fault, whatever the client is doing then
 }
 
 func init() {
@@ -128,6 +129,7 @@ func runC13(e *Engine, g G, o RunOpt) RunInfo {
 	if g.Pct("stop-early", 20) {
 		// 1: at the instant the new session is up; 2: at the instant of the next connection attempt
 		sc.StopEarlyMs = []int{0, 0, 0, 1, 1, 7, 20, 45, 170, 1300, 16000}[g.N("stop-early-ms", 11)] + 1
+		sc.StopDuringFirstConnect = !o.Avoiding("stop-during-first-connect") && g.Pct("stop-during-first-connect", 6)
 	}
 	sc.Seg, sc.LatencyNs = netModes(g, e)
 	if sc.LatencyNs > int64(10*time.Millisecond) {
@@ -280,6 +282,9 @@ func runC13(e *Engine, g G, o RunOpt) RunInfo {
 	e.Run(func() {
 		srv = NewServer(e, SimDomain)
 		srv.Certs = sharedCerts()
+		if sc.StopDuringFirstConnect {
+			scripts[0].DelayMs = 4000
+		}
 		srv.Scripts = scripts
 		w = NewCW(e, sc.Client, sharedCerts())
 		w.CatchAll()
@@ -315,6 +320,17 @@ func runC13(e *Engine, g G, o RunOpt) RunInfo {
 			runReturned = true
 			e.Logf("api.ret", "StreamManager.Run returned %v", runErr)
 		})
+		if sc.StopDuringFirstConnect {
+			// the application gives up while the very first connection is still being negotiated (a slow
+			// server): Stop returns, Run returns - with an error or without - and nothing crashes
+			e.Sleep(1500*time.Millisecond + 17*time.Microsecond)
+			e.Call("StreamManager.Stop", func() error { sm.Stop(); return nil })
+			stopped = true
+			e.WaitUntilFor("run-returns", 2*time.Minute, func() bool { return runReturned })
+			e.Sleep(time.Minute)
+			e.Probe("c13.stop_during_the_first_connect")
+			return
+		}
 		if e.WaitUntilFor("first-session", 2*time.Minute, func() bool { return len(established()) == 1 && postConnects >= 1 }) {
 			return
 		}
@@ -441,6 +457,16 @@ func runC13(e *Engine, g G, o RunOpt) RunInfo {
 	})
 
 	info := RunInfo{Scenario: sc, Nontrivial: firstUp && (reestablished > 0 || reachedPermanent)}
+	if sc.StopDuringFirstConnect {
+		for _, p := range e.Panics {
+			e.Violate("C13", "panic:"+panicSite(p)+":stop-during-first-connect", "%s: %s\n%s", p.Where, p.Value, clip(p.Stack, 1500))
+		}
+		if stopped && !runReturned && len(e.Violations) == 0 {
+			e.Violate("C13", "run-does-not-return", "Stop() during the first connection attempt: StreamManager.Run did not return within 2 minutes")
+		}
+		info.Nontrivial = true
+		return info
+	}
 	if !firstUp {
 		e.Probe("precondition_failed")
 		return info
